@@ -74,6 +74,7 @@ func evalTransformUsingAppender(
 ) []*sysl.Value {
 	listResult := []*sysl.Value{}
 	scopeVar := x.Scopevar
+	scopeVarValue, hasScopeVar := assign[scopeVar]
 
 	for _, svar := range v {
 		assign[scopeVar] = svar
@@ -81,6 +82,9 @@ func evalTransformUsingAppender(
 		listResult = appender(listResult, res)
 	}
 	delete(assign, scopeVar)
+	if hasScopeVar {
+		assign[scopeVar] = scopeVarValue
+	}
 	logrus.Tracef("Transform Result (As List/Set): %v", listResult)
 	return listResult
 }
@@ -142,6 +146,7 @@ func (ee *exprEval) evalTransform(assign Scope, x *sysl.Expr_Transform_, e *sysl
 	default:
 		// HACK: scopevar == '.', then we are not unpacking the map entries
 		scopeVar := x.Transform.Scopevar
+		scopeVarValue, hasScopeVar := assign[scopeVar]
 		if argValue.GetMap() != nil && scopeVar != "." {
 			// TODO: add check that return type is defined as 'set of ...'
 			resultList := &sysl.Value_List{}
@@ -164,6 +169,9 @@ func (ee *exprEval) evalTransform(assign Scope, x *sysl.Expr_Transform_, e *sysl
 				AppendItemToValueList(resultList, res)
 			}
 			delete(assign, scopeVar)
+			if hasScopeVar {
+				assign[scopeVar] = scopeVarValue
+			}
 			if e.Type.GetSet() != nil {
 				return &sysl.Value{
 					Value: &sysl.Value_Set{
@@ -181,6 +189,9 @@ func (ee *exprEval) evalTransform(assign Scope, x *sysl.Expr_Transform_, e *sysl
 		assign[scopeVar] = argValue
 		res := evalTransformStmts(ee, assign, x.Transform)
 		delete(assign, scopeVar)
+		if hasScopeVar {
+			assign[scopeVar] = scopeVarValue
+		}
 		logrus.Tracef("Transform Result: %v", res)
 		return res
 	}
